@@ -146,7 +146,7 @@ func init() {
 		Engines: []EngineSpec{notQueryMode("NT"), rules("REG", "REG-dyn", "REG-type", "REG-exit"), notPrinterOnly("IX"), notPrinterOnly("IV"), all("TA"), rules("ED", "ED-1", "ED-3")},
 		Clause: "Structural necessary conditions of 'never crashes', decided on every path of the current source: (NT) no nil dereference on the end-of-input path of any of the token-read call sites, and none on the miss path of any table-lookup call site; (REG-dyn) unchecked evaluator-registry lookups use registered keys and every evaluator type is registered; (REG-type) every constructible kind of T has a case in the panicking rendering switch; (REG-exit) explicit panics / non-zero exits reachable from main are exactly the reviewed set; (IX) every constant-position index/slice and every variable index into a fixed array is guarded on all paths, structurally bounded, guarded by all callers, or individually reviewed; (IX-var) every variable-position index/slice on a slice or string is in bounds by a difference-constraint argument over the dominating comparisons, summaries of boolean helpers, counters that only grow, lengths of made / step-wise appended slices, and the same facts at every static caller — or individually reviewed; (TA) every unchecked type assertion is dominated by a check of the same type on the same storage, discharged by the lexer kind/value pairing analysis or by a container invariant, or individually reviewed; (ED-1, ED-3) diagnostics are recorded by a single writer in one format and their text cannot contain a line break. The behaviour itself (exit status, output format) is not decided.",
 		NotCovered: "nil values stored in slices/fields and dereferenced later, stack exhaustion, out-of-memory, rendering text, correlated-predicate paths (reviewed exceptions listed)",
-	}, propMeta{Technique: "abstract interpretation over go/ssa (nilness/constant lattice, interprocedural summaries, EOF and lookup-miss environments) + registry exhaustiveness over resolved constants + call-graph reachability of exits",
+	}, propMeta{Technique: "abstract interpretation over go/ssa (nilness/constant lattice, interprocedural summaries, EOF and lookup-miss environments; nil-returning functions derived) + difference-constraint bounds analysis for variable positions (dominating comparisons, boolean-helper summaries, inductive counter bounds, equal-length results, caller requirements) + constant-position bounds rules + type-assertion dominance and lexer kind/value pairing + registry exhaustiveness over resolved constants + call-graph reachability of exits",
 		LevelText: "every rule instance in the source is enumerated and decided (exhaustive over call sites, not over inputs); a violated or undecided instance fails the check. This is a necessary-condition check, weaker than a proof of the property and stronger than any input sample: the nil path of each read is taken whether or not a test reaches it.",
 		LevelNote: "trusts go/types, go/ssa, VTA call graph (x/tools v0.50.0); reader protocol axiom (Read yields nil for ever at EOF) re-derived structurally under C02/C03; reviewed exceptions are printed in the evidence", DesignRef: "4 NT, REG; 5 C01"})
 
@@ -154,7 +154,7 @@ func init() {
 		Engines: []EngineSpec{all("EL"), all("REC"), rules("RCL", "RCL-progress", "RCL-cycle"), all("TCL")},
 		Clause: "Structural necessary conditions of 'terminates without the watchdog': (EL) every non-range loop whose body reads input (47 today) leaves when the input is exhausted — decided by abstract execution from the loop header in the EOF environment with unknown loop-carried state; loops that do not read input need a recognised ranking function or a reviewed exception; (REC) recursion over the user-defined inheritance graph carries a cycle guard; (RCL) in the lexer every delivered token and every loop iteration consumes at least one rune, for every rune class; (TCL) no loop of the parser or the evaluator that can reach the token reader comes back to its header without having consumed a token (net of un-gets), by summaries over the call graph with every branch taken both ways.",
 		NotCovered: "termination of the evaluator's mutual recursion, getChainMethodReturnType (depends on TFrame contents), the watchdog firing under machine load",
-	}, propMeta{Technique: "abstract interpretation of loops at EOF over go/ssa (ranking argument: remaining input is 0 and cannot decrease) + call-graph SCC rule for graph recursion",
+	}, propMeta{Technique: "abstract interpretation of loops at EOF over go/ssa + ranking-function recognition (ordered exits, counters advanced through call-result summaries) + token-level and rune-level consumption analysis (un-get flag / net consumption summaries over the VTA call graph) + visited-set rules for graph recursion",
 		LevelText: "all input-driven loops and all graph recursions of the source are enumerated and decided; a cycle that returns to the loop header in an unchanged abstract state at EOF is a definite non-termination (every witness is a truncated file).",
 		LevelNote: "trusts go/ssa loop structure (dominator back edges); integers are widened beyond ±24; the reader protocol (nil token for ever at EOF)", DesignRef: "4 EL, REC; 5 C02"})
 
@@ -170,7 +170,7 @@ func init() {
 		Engines: []EngineSpec{fromPrinters("REC"), printerOnly("IX"), lookupsOrQueryMode("NT")},
 		Clause: "C01's and C02's rules restricted to the code reachable (VTA call graph) from the editor-query printers of package cmd (functions taking the finished Parser by value): graph recursion over the inheritance table is cycle-guarded, and every constant-position index in the printers' own code is guarded or reviewed; plus the code that runs only when a row was requested: at every table-lookup call site (all of them are re-checked here, because the target capture `if LspTargetRow == ErrorRow { … }` follows lookups throughout the strategies) a miss is not dereferenced, in particular not inside a block dominated by the requested-row comparison.",
 		NotCovered: "which records are printed; index guards in the printers (claimed with IX when built); hangs and crashes of the analysis that precedes the printers are reported under C01/C02",
-	}, propMeta{Technique: "call-graph reachability from the query printers + the REC/NT/EL rules on the reachable functions",
+	}, propMeta{Technique: "call-graph reachability from the query printers + the REC (guard, monotone visited set) / NT / IX / IV rules on the reachable functions",
 		LevelText: "all functions reachable from the printers are enumerated from the call graph on every run and each rule instance in them is decided.",
 		LevelNote: "trusts the VTA call graph; printers are resolved by role (exported cmd functions with a single by-value Parser parameter)", DesignRef: "5 C04"})
 
@@ -193,7 +193,7 @@ func init() {
 		Engines: []EngineSpec{rules("ED", "ED-1", "ED-2"), all("CHK")},
 		Clause: "The declaration check cannot be by-passed: (CHK) from every call that collects the evaluated arguments of a configured call, every path to a success return passes through a declaration check of the collected list (collector and checker resolved by signature shape; all 14 call sites). And a diagnostic, once produced, reaches the report: (ED-1) the diagnostics list has a single appending writer under the reporting-round test and is otherwise only reset per round; (ED-2) at each of the call sites whose callee may return a diagnostic built in eval / eval/method_evaluator (186 today, closed over return statements and the VTA call graph) the error result is read — not a call statement, not `_`, not a dead value.",
 		NotCovered: "what the declaration check concludes (lookup, overloads, acceptance of types: runtime type sets)",
-	}, propMeta{Technique: "error-flow analysis over go/ssa and the VTA call graph (diagnostic sources closed over return statements; dead-value detection at call sites) + who-may-write rule on the diagnostics field",
+	}, propMeta{Technique: "must-pass-through over the SSA CFG from argument collectors to declaration checks (roles by signature shape) + error-flow analysis over go/ssa and the VTA call graph (diagnostic sources closed over return statements; dead-value detection at call sites) + who-may-write rule on the diagnostics field",
 		LevelText: "all call sites returning an error are enumerated; those that can carry a diagnostic are decided exactly (the value is read or it is not).",
 		LevelNote: "callees that can only return nil or lexical errors of package parser are exempt by derivation; reviewed exceptions (recovery scans, speculative re-evaluation) are printed in the evidence", DesignRef: "4 ED; 5 C07"})
 
@@ -217,7 +217,7 @@ func init() {
 		Engines: []EngineSpec{all("SE"), funcs("TB", "checkAndPropagateArgsForUnion"), all("RS"), all("GEN")},
 		Clause: "The two global-state channels that are structurally checkable: evaluator and strategy singletons (43 types in the two registries) carry no state across (nested) evaluations — no store through the receiver in any method that can run on the singleton (SE); and the union-receiver call path does not accumulate return types into shared method-table entries (TB, the channel the property names; the full table-immutability rule is C12); and parser fields that carry per-call state from method evaluation to block/definition evaluation are reset when the next method evaluation starts, cleared by a defer, or consumed on read (RS); fresh-name counters are monotone over the process, so no synthetic name is handed out twice (GEN).",
 		NotCovered: "the isParsingExpression flag, per-call state kept outside the parser",
-	}, propMeta{Technique: "receiver-alias/effect analysis of registered singletons over go/ssa",
+	}, propMeta{Technique: "receiver-alias/effect analysis of registered singletons over go/ssa + taint on the union path + per-call parser state reset rules (must-write before read in the definition evaluator) + monotone fresh-name counters",
 		LevelText: "all registered types and all methods reachable on the shared receiver are enumerated and decided.",
 		LevelNote: "registries are resolved by role: package-level maps whose element type is a module interface", DesignRef: "4 SE; 5 C11"})
 
@@ -232,25 +232,25 @@ func init() {
 		Engines: []EngineSpec{all("NL")},
 		Clause: "Narrow clause: no dispatch on the length of an identifier's text. Every comparison of len(text) with a constant in base, eval, method_evaluator, parser and cmd (23 today) is an emptiness test, a conjunct next to a decoration test of the same text, or a bounds guard of exactly the strength the indexing it dominates needs.",
 		NotCovered: "everything else about names: table keys, classification by character class, collisions with configured names",
-	}, propMeta{Technique: "def-use and dominance rule on len comparisons over go/ssa (bounds-guard strength compared with the dominated index sites)", LevelText: "all length comparisons on text are enumerated and decided.", LevelNote: "narrow by design: only length-dependence is decided", DesignRef: "4 NL; 5 C13"})
+	}, propMeta{Technique: "def-use and dominance rule on len comparisons over go/ssa (bounds-guard strength compared with the dominated index sites and with the length of the neighbouring decoration test)", LevelText: "all length comparisons on text are enumerated and decided.", LevelNote: "narrow by design: only length-dependence is decided", DesignRef: "4 NL; 5 C13"})
 
 	claim("C14", PropertySpec{
 		Engines: []EngineSpec{rules("ORD", "ORD-canon")},
 		Clause: "In the argument binder every order-sensitive use of the call-site arguments is on the canonicalised list (the raw list is only measured and canonicalised), and the canonicaliser sorts the keyword partition by key.",
 		NotCovered: "consumers of the unsorted argument list outside the binder (conditional returns, execution-type calculation), evaluation order of argument expressions",
-	}, propMeta{Technique: "def-use rule on the binder's parameter over go/ssa + comparator shape check", LevelText: "all callers of the canonicaliser are enumerated; each use of the raw parameter is decided.", LevelNote: "canonicaliser resolved by role: func([]*T) []*T that partitions and sorts", DesignRef: "4 ORD-canon; 5 C14"})
+	}, propMeta{Technique: "def-use rule on the binder's parameter over go/ssa + comparator shape check + dominance of the sort over every return of the canonicaliser", LevelText: "all callers of the canonicaliser are enumerated; each use of the raw parameter is decided.", LevelNote: "canonicaliser resolved by role: func([]*T) []*T that partitions and sorts", DesignRef: "4 ORD-canon; 5 C14"})
 
 	claim("C15", PropertySpec{
 		Engines: []EngineSpec{rules("PAIR", "PAIR-snap"), rules("REG", "REG-rounds"), rules("ORD", "ORD-agree", "ORD-canon")},
 		Clause: "Argument types saved before a method body is analysed are restored on every exit (must-pass-through from the snapshot call to the restore call), the round protocol is consistent (every round name compared is produced; diagnostics are recorded in the last round), and the binder's two canonical orders agree: call-site keywords are sorted by the stored key text, the same text the parameter names are sorted by, and no return of the canonicaliser by-passes the sort (otherwise an argument is matched with the wrong parameter or never propagated).",
 		NotCovered: "the propagation rules themselves",
-	}, propMeta{Technique: "must-pass-through over the SSA CFG + agreement of string constants", LevelText: "all snapshot call sites and all round comparisons are enumerated and decided.", LevelNote: "snapshot/restore functions resolved by role (writer/reader of the package-level map[FrameKey]T)", DesignRef: "4 PAIR, REG-rounds; 5 C15"})
+	}, propMeta{Technique: "must-pass-through over the SSA CFG + agreement of string constants + agreement of the two canonical orders (accessor returns the stored key; sort dominates every return)", LevelText: "all snapshot call sites and all round comparisons are enumerated and decided.", LevelNote: "snapshot/restore functions resolved by role (writer/reader of the package-level map[FrameKey]T)", DesignRef: "4 PAIR, REG-rounds; 5 C15"})
 
 	claim("C16", PropertySpec{
 		Engines: []EngineSpec{rules("PAIR", "PAIR-byvalue", "PAIR-ctx"), rules("ORD", "ORD-flat", "ORD-flat-use", "ORD-edge"), rules("REC", "REC-key")},
 		Clause: "Visibility state cannot outlive its class body: the evaluator interface takes the Context by value, and every function that sets flags through a *Context parameter resets them in a defer or is called only with the address of the caller's own by-value context; and the registry used to decide 'parent is a Builtin-frame class' keeps the frame (ORD-flat); the ancestor walks (superclass chains of any depth, mixins) keep a visited set keyed by the full node, so no ancestor is pruned because a same-named class was seen (REC-key); the elements of the inheritance lists are edges that carry their kind (include / extend) and are compared with a node identity field by field only — never as whole values, which would leave mixins out of hierarchy tests such as the protected check (ORD-edge).",
 		NotCovered: "resolution order, new/initialize, what the protected check concludes",
-	}, propMeta{Technique: "typestate-style flag pairing over go/ssa + call-graph check of pointer provenance", LevelText: "all functions with a *Context parameter and all their call sites are enumerated and decided.", LevelNote: "trusts the VTA call graph for callers", DesignRef: "4 PAIR; 5 C16"})
+	}, propMeta{Technique: "typestate-style flag pairing over go/ssa + call-graph check of pointer provenance + whole-value-use analysis of inheritance edges + visited-set key type rule", LevelText: "all functions with a *Context parameter and all their call sites are enumerated and decided.", LevelNote: "trusts the VTA call graph for callers", DesignRef: "4 PAIR; 5 C16"})
 
 	claim("C17", PropertySpec{
 		Engines: []EngineSpec{and(rules("PAIR", "PAIR"), funcs("PAIR", "(*Do)")), and(rules("REG", "REG-type"), funcs("REG", "eval"))},
@@ -262,19 +262,19 @@ func init() {
 		Engines: []EngineSpec{rules("ORD", "ORD-load", "ORD-prov", "ORD-own"), rules("ED", "ED-1"), all("GEN"), rules("RS", "RS-def")},
 		Clause: "Nothing is printed while a preload file is analysed (every printing call of the analysis loop is dominated by the false edge of the load flag), diagnostics have a single writer, the file name and the row of every record come from the same object, only records made for the target file are collected into its hint list and the parser of a preloaded file never carries the requested row (ORD-own), and the counter of every fresh-name generator is only ever advanced from its own value (names handed out while a preload file is analysed stay in the tables, so a per-file reset makes preloads and target collide where a concatenation cannot); and the type a definition records never depends on what was evaluated before it: in the `def` evaluator every read of the parser's last evaluated value is preceded, on every path from the evaluator's entry, by a definite write made by the evaluator itself (RS-def) — otherwise the first definition of the target file sees the last statement of the preceding file only when files are concatenated.",
 		NotCovered: "equality with the concatenated run",
-	}, propMeta{Technique: "dominance over the SSA CFG of the analysis loop with call-graph print summaries + provenance (root object) comparison of record components", LevelText: "all printing calls of the loop and all file+row record assemblies are enumerated and decided.", LevelNote: "file-name fields are anchored by name (FileName); integer row parameters are followed to their call sites", DesignRef: "4 ORD-load, ORD-prov; 5 C18"})
+	}, propMeta{Technique: "dominance over the SSA CFG of the analysis loop with call-graph print summaries + provenance (root object) comparison of record components + own-file filter and requested-row rules in package main + monotone fresh-name counters + must-write-before-read in the definition evaluator", LevelText: "all printing calls of the loop and all file+row record assemblies are enumerated and decided.", LevelNote: "file-name fields are anchored by name (FileName); integer row parameters are followed to their call sites", DesignRef: "4 ORD-load, ORD-prov; 5 C18"})
 
 	claim("C19", PropertySpec{
 		Engines: []EngineSpec{rules("ORD", "ORD-overload", "ORD-lastwins"), rules("GEN", "GEN-mono", "GEN-scope")},
 		Clause: "The loader's 'method already exists → overload' test must be an exact-key lookup: it must not reach, in the call graph, a function that walks the inheritance table (then the answer depends on which extends edges earlier files created, i.e. on file names and splitting); and no store of the loader into a shared keyed table is a plain overwrite (it is guarded by a test reading the same entry, or accumulates onto it), so that no 'last file wins'; synthetic names that become part of a key of a process-wide table come from a process-wide, monotone generator — never from a counter kept in a per-file object (GEN).",
 		NotCovered: "every other order dependence of the loader (documents, registry order)",
-	}, propMeta{Technique: "call-graph reachability from the lookup used by the overload test", LevelText: "both overload sites are enumerated and decided.", LevelNote: "overload sites resolved by role: stores to the Overloads field in package builtin", DesignRef: "4 ORD-overload; 5 C19"})
+	}, propMeta{Technique: "call-graph reachability from the lookup used by the overload test + guarded-store rule on shared keyed tables + scope rule for fresh-name generators feeding table keys", LevelText: "both overload sites are enumerated and decided.", LevelNote: "overload sites resolved by role: stores to the Overloads field in package builtin", DesignRef: "4 ORD-overload; 5 C19"})
 
 	claim("C20", PropertySpec{
 		Engines: []EngineSpec{rules("ORD", "ORD-flat", "ORD-flat-use")},
 		Clause: "The registry consulted to decide 'is this a Builtin-frame class' must not erase the frame: its entries carry the frame or are restricted by a frame test; and every consumer that redirects a class to the Builtin frame because its short name is registered also tests that the name was written unqualified (frame/namespace empty).",
 		NotCovered: "other ways an unmentioned class could matter (inheritance edges of same-named classes)",
-	}, propMeta{Technique: "dependence rule on the registry append over go/ssa", LevelText: "the single registration site is decided.", LevelNote: "registry anchored by name (BuiltinClasses)", DesignRef: "4 ORD-flat; 5 C20"})
+	}, propMeta{Technique: "dependence rule on the registry append over go/ssa + guard rule at every consumer of the registry", LevelText: "the single registration site is decided.", LevelNote: "registry anchored by name (BuiltinClasses)", DesignRef: "4 ORD-flat; 5 C20"})
 
 	claim("C21", PropertySpec{
 		Engines: []EngineSpec{all("AL")},
@@ -286,7 +286,7 @@ func init() {
 		Engines: []EngineSpec{rules("ORD", "ORD-row")},
 		Clause: "In every evaluator that records a definition row, the row is captured in the entry block before any token is read, and — for a helper — no token is read on any static call path between the generic dispatcher's hand-off and the helper's entry (so multi-line definitions are recorded on the row of their first token).",
 		NotCovered: "hover content, visibility tags, the file name (C18)",
-	}, propMeta{Technique: "ordering rule over the SSA entry block with call-graph 'reads tokens' summaries", LevelText: "all 8 definition-row captures are enumerated and decided.", LevelNote: "row field anchored by name (ErrorRow); comparisons and restores are excluded by def-use", DesignRef: "4 ORD-row; 5 C22"})
+	}, propMeta{Technique: "ordering rule over the SSA entry block with call-graph 'reads tokens' summaries, extended over static call chains back to the registry dispatcher", LevelText: "all 8 definition-row captures are enumerated and decided.", LevelNote: "row field anchored by name (ErrorRow); comparisons and restores are excluded by def-use", DesignRef: "4 ORD-row; 5 C22"})
 
 	claim("C24", PropertySpec{
 		Engines: []EngineSpec{rules("ORD", "ORD-spec", "ORD-key")},
@@ -298,17 +298,17 @@ func init() {
 		Engines: []EngineSpec{rules("ORD", "ORD-frame", "ORD-key"), rules("REC", "REC-key")},
 		Clause: "In an evaluator that switches the frame of its context, every frame read that feeds a registry key (inheritance node, defined-class and method table setters) is dominated by the switch, so that all keys of one class definition use one frame; every frame-qualified name built by concatenation reads frame and class from the same object; the visited sets of the inheritance walks are keyed by the full node (frame and class), not by a projection of it.",
 		NotCovered: "qualified reference evaluation, configured-name collisions (C16/C20)",
-	}, propMeta{Technique: "dominance rule over go/ssa", LevelText: "all frame reads feeding keys in frame-switching evaluators are enumerated and decided.", LevelNote: "SetFrame/GetFrame anchored by name on context.Context", DesignRef: "4 ORD-frame; 5 C27"})
+	}, propMeta{Technique: "dominance rule over go/ssa + same-receiver rule for qualified-name concatenations over the type-checked AST + visited-set key type rule", LevelText: "all frame reads feeding keys in frame-switching evaluators are enumerated and decided.", LevelNote: "SetFrame/GetFrame anchored by name on context.Context", DesignRef: "4 ORD-frame; 5 C27"})
 
 	claim("C25", PropertySpec{
 		Engines: []EngineSpec{inPkgs("MO", "cmd/rbs2json"), rules("ORD", "ORD-args"), funcs("REGJ", "cmd/rbs2json"), inPkgs("LA", "builtin")},
 		Clause: "No range over a map in rbs2json leaks iteration order into the emitted JSON; the argument converter appends the six parameter groups in signature order and sets is_default / is_asterisk / key exactly for the groups that need them (groups and flags resolved through their JSON tags); every JSON key the tool emits is read, at the same nesting and with a compatible type, by the loader's structs, and every type-name constant it can emit is a loader keyword or a configured class; in the loader that turns the emitted arguments into parameter values, every address retained per loop iteration (keyword parameters keep a pointer to their type) points to a variable of that iteration.",
 		NotCovered: "RBS type mapping beyond name agreement, arity as checked by ti beyond the loader's aliasing discipline",
-	}, propMeta{Technique: "effect classification of map-range bodies over the type-checked AST", LevelText: "every map range of the tool is enumerated and classified.", LevelNote: "conservative classification", DesignRef: "4 MO; 5 C25"})
+	}, propMeta{Technique: "effect classification of map-range bodies over the type-checked AST + group/flag agreement through JSON tags + writer/loader agreement of JSON keys, type names and prefix notation + loop-retained address rule in the loader", LevelText: "every map range of the tool is enumerated and classified.", LevelNote: "conservative classification", DesignRef: "4 MO; 5 C25"})
 
 	claim("C26", PropertySpec{
 		Engines: []EngineSpec{inPkgs("MO", "cmd/c2json"), funcs("REGJ", "cmd/c2json")},
 		Clause: "No range over a map in c2json leaks iteration order into the emitted JSON (this settles the sentence 'the output is deterministic' for all inputs as far as map order is concerned); every JSON key the tool emits is read by the loader's structs with a compatible type, and every type-name constant it can emit (after the loader's ? * notation rules) is a loader keyword or a configured class; a `?T` / `*T` entry, which the loader reads as default / rest only in a one-entry type list (derived from the loader on every run), is never put into or left in a longer list.",
 		NotCovered: "the arity equivalence beyond that (regex heuristics over C text)",
-	}, propMeta{Technique: "effect classification of map-range bodies over the type-checked AST", LevelText: "every map range of the tool is enumerated and classified.", LevelNote: "conservative classification", DesignRef: "4 MO; 5 C26"})
+	}, propMeta{Technique: "effect classification of map-range bodies over the type-checked AST + writer/loader agreement of JSON keys, type names and prefix notation (loader side derived on every run)", LevelText: "every map range of the tool is enumerated and classified.", LevelNote: "conservative classification", DesignRef: "4 MO; 5 C26"})
 }
